@@ -786,8 +786,17 @@ impl GRLParser {
 
     fn is_balanced_parentheses(&self, text: &str) -> bool {
         let mut count = 0;
+        // parentheses inside a string literal are text
+        let mut quote: Option<char> = None;
         for ch in text.chars() {
+            if let Some(q) = quote {
+                if ch == q {
+                    quote = None;
+                }
+                continue;
+            }
             match ch {
+                '"' | '\'' => quote = Some(ch),
                 '(' => count += 1,
                 ')' => {
                     count -= 1;
@@ -806,9 +815,22 @@ impl GRLParser {
         let mut current_part = String::new();
         let mut paren_count = 0;
         let mut chars = clause.chars().peekable();
+        // operators and parentheses inside a string literal are text
+        let mut quote: Option<char> = None;
 
         while let Some(ch) = chars.next() {
+            if let Some(q) = quote {
+                if ch == q {
+                    quote = None;
+                }
+                current_part.push(ch);
+                continue;
+            }
             match ch {
+                '"' | '\'' => {
+                    quote = Some(ch);
+                    current_part.push(ch);
+                }
                 '(' => {
                     paren_count += 1;
                     current_part.push(ch);
